@@ -23,6 +23,7 @@ type profile struct {
 	scripts   []string
 	inputs    [][]int
 	fuel      int
+	globals    bool // package-level variables GV0..GV2 (declared in another file of the package) are visible
 	noMethods  bool // generators are plain functions only
 	keepParams bool // parameters a, b are never shadowed
 	noEv      bool // no trace events inside generators (goroutine-safe programs, C14 parallel)
@@ -762,6 +763,11 @@ func (g *gctx) forStmt() []*Stmt {
 	if postYield {
 		body = append(body, &Stmt{K: "incdec", Name: counter, Op: "++"})
 		s.Post = &Stmt{K: "yield", E: &Expr{K: "bin", Op: "+", L: lit(100), R: &Expr{K: "var", Name: counter}}}
+		if g.hasDelegTarget() && g.pct(35, "yfpost") {
+			// the post statement delegates; its argument mentions visible variables (which the body may shadow)
+			s.Post = &Stmt{K: "yieldfrom", Iter: g.iterExpr()}
+			g.prog.tag("yieldfrom-in-post", "yieldfrom")
+		}
 	}
 	if s.E == nil && s.Init == nil {
 		// infinite loop: most get a guarded exit so that the generator terminates
@@ -1208,6 +1214,13 @@ func genProgram(t *rapid.T, prof *profile, name string) *Program {
 		d := &Decl{Kind: "gen", Name: fmt.Sprintf("%sG%d", name, i), Elem: elem, NamedRet: g.pct(40, "namedret")}
 		np := 1 + g.draw(2, "nparams")
 		g.scope = nil
+		if prof.globals {
+			g.push(false) // package scope
+			for _, n := range []string{"GV0", "GV1", "GV2"} {
+				g.declare(vinfo{name: n, typ: "int"})
+			}
+			p.tag("package-level-vars")
+		}
 		g.push(true)
 		recvExpr := ""
 		if !prof.noMethods && g.pct(25, "method") {
@@ -1292,6 +1305,12 @@ func genProgram(t *rapid.T, prof *profile, name string) *Program {
 	for i := 0; i < prof.plainFns; i++ {
 		d := &Decl{Kind: "fn", Name: fmt.Sprintf("%sF%d", name, i), Result: "(res int)", Params: []Param{{"a", "int"}, {"b", "int"}}}
 		g.scope = nil
+		if prof.globals {
+			g.push(false)
+			for _, n := range []string{"GV0", "GV1", "GV2"} {
+				g.declare(vinfo{name: n, typ: "int"})
+			}
+		}
 		g.push(true)
 		g.declare(vinfo{name: "a", typ: "int"})
 		g.declare(vinfo{name: "b", typ: "int"})
